@@ -38,6 +38,80 @@ fn is_hash_key(k: &str) -> bool {
     k.len() == 64 && k.chars().all(|c| c.is_ascii_hexdigit())
 }
 
+/// remove the _$_NNN suffixes the compiler's renaming appends to names
+fn strip_fresh_suffixes(s: &str) -> String {
+    let b = s.as_bytes();
+    let mut out = String::new();
+    let mut i = 0;
+    while i < b.len() {
+        if b[i..].starts_with(b"_$_") {
+            i += 3;
+            while i < b.len() && b[i].is_ascii_digit() {
+                i += 1;
+            }
+        } else {
+            out.push(b[i] as char);
+            i += 1;
+        }
+    }
+    out
+}
+
+fn collect_lambdas_prog(p: &Program, out: &mut Vec<(Vec<String>, Pat)>) {
+    for h in &p.helpers {
+        match h {
+            Helper::Defun { body, .. } => collect_lambdas(body, out),
+            Helper::Defconst { expr, .. } => collect_lambdas(expr, out),
+            _ => {}
+        }
+    }
+    collect_lambdas(&p.body, out);
+}
+
+fn collect_lambdas(e: &Expr, out: &mut Vec<(Vec<String>, Pat)>) {
+    match e {
+        Expr::Lambda { caps, params, body } => {
+            out.push((caps.clone(), params.clone()));
+            collect_lambdas(body, out);
+        }
+        Expr::If(a, b, c) => {
+            collect_lambdas(a, out);
+            collect_lambdas(b, out);
+            collect_lambdas(c, out);
+        }
+        Expr::Prim(_, args) | Expr::List(args) | Expr::MacroCall { args, .. } => args.iter().for_each(|a| collect_lambdas(a, out)),
+        Expr::Call { args, rest, .. } => {
+            args.iter().for_each(|a| collect_lambdas(a, out));
+            if let Some(r) = rest {
+                collect_lambdas(r, out);
+            }
+        }
+        Expr::Let { binds, body, .. } => {
+            binds.iter().for_each(|b| collect_lambdas(&b.1, out));
+            collect_lambdas(body, out);
+        }
+        Expr::Assign { binds, body, hint, .. } => {
+            // assign-lambda makes lambdas of its own: treat as "more than one" by pushing a marker
+            if *hint == 2 {
+                out.push((vec!["<assign-lambda>".into()], Pat::Nil));
+            }
+            binds.iter().for_each(|b| collect_lambdas(&b.1, out));
+            collect_lambdas(body, out);
+        }
+        Expr::Apply(a, b) => {
+            collect_lambdas(a, out);
+            collect_lambdas(b, out);
+        }
+        Expr::QQList(items) => items.iter().for_each(|i| {
+            if let Err(e) = i {
+                collect_lambdas(e, out)
+            }
+        }),
+        Expr::ModExpr(p) => collect_lambdas_prog(p, out),
+        _ => {}
+    }
+}
+
 fn norm_args(s: &str) -> String {
     // parameter lists compare as parsed s-expressions, printed by the crate itself
     match sut::parse_one(s) {
@@ -87,6 +161,22 @@ pub fn judge(prog: &Program, d: Dialect, mo: ModernOpts, c: &mut Choices, st: &m
             return Err(Viol::new("entry-names-no-function-of-the-program", "a defun of the program or a synthesised helper", name.clone(), case(json!({"key": k}))));
         }
         if synthetic {
+            // a desugared lambda takes ((captures..) . params): when the program has exactly one
+            // lambda, its entry's recorded argument list must have that shape and those names
+            // (fresh-name suffixes stripped)
+            if name.starts_with("lambda_$_") && syms.iter().filter(|(k2, v2)| is_hash_key(k2) && v2.starts_with("lambda_$_")).count() == 1 {
+                let mut lambdas = vec![];
+                collect_lambdas_prog(prog, &mut lambdas);
+                if lambdas.len() == 1 {
+                    let (caps, params) = &lambdas[0];
+                    let want = norm_args(&format!("(({}) . {})", caps.join(" "), render_pat(params)));
+                    let rec = norm_args(&strip_fresh_suffixes(&syms[&format!("{k}_arguments")]));
+                    st.label("lambda-entry-arguments-checked");
+                    if rec != want {
+                        return Err(Viol::new("lambda-entry-arguments-differ", want, rec, case(json!({"key": k, "function": name}))));
+                    }
+                }
+            }
             continue;
         }
         let (params, inline) = user_fns[name];
@@ -180,7 +270,7 @@ impl Prop for C13Prop {
         "C13"
     }
     fn rule(&self) -> &'static str {
-        "C01 generator's programs (0..8 user functions plus the helpers synthesised for let/assign/lambda), one modern sigil per case, with optimisation off and with the sigil's default options. Function entry := a 64-hex key K with a K_arguments companion. For each function entry whose K is the tree hash of a subtree of the emitted program: its value is a defun of the program or a synthesised name; for user functions K_arguments re-read equals the parameter list, and the code found through the entry (path_to_function + rewrite_in_program when K_left_env is set, the subtree itself otherwise) run on generated arguments gives what the reference interpreter gives for calling that function. Unoptimised builds: every non-inline function reachable from main has an entry whose code occurs in the program. Non-trivial: >= 2 function entries matched in the program. Distinct by hash of source + options."
+        "C01 generator's programs (0..8 user functions plus the helpers synthesised for let/assign/lambda), one modern sigil per case, with optimisation off and with the sigil's default options. Function entry := a 64-hex key K with a K_arguments companion. For each function entry whose K is the tree hash of a subtree of the emitted program: its value is a defun of the program or a synthesised name; for user functions K_arguments re-read equals the parameter list, and the code found through the entry (path_to_function + rewrite_in_program when K_left_env is set, the subtree itself otherwise) run on generated arguments gives what the reference interpreter gives for calling that function. When the program has exactly one lambda, the arguments recorded for its desugared function must read ((captures..) . params) after stripping fresh-name suffixes. Unoptimised builds: every non-inline function reachable from main has an entry whose code occurs in the program. Non-trivial: >= 2 function entries matched in the program. Distinct by hash of source + options."
     }
     fn sections(&self, tier: Tier) -> Vec<Section> {
         vec![Section {
